@@ -55,6 +55,19 @@ func registerVxFS(e *Engine) {
 		st.nodes[p] = &fsNode{name: p, vsize: int(ex.concreteInt(args[1], "FSSparseFile size", true)), mode: 0o644, complete: true, gen: st.nextGen}
 		return nil
 	})
+	e.reg(vxPath+".FSSparsePatch", func(ex *Exec, fr *frame, args []Value) Value {
+		st := ex.fs()
+		n := st.nodes[ex.fsPath(args[0])]
+		if n == nil {
+			ex.unsupported("FSSparsePatch: no such file")
+		}
+		if n.patches == nil {
+			n.patches = map[int][]Value{}
+		}
+		at := int(ex.concreteInt(args[1], "FSSparsePatch offset", true))
+		n.patches[at] = append([]Value{}, args[2].([]Value)...)
+		return nil
+	})
 	e.reg(vxPath+".FSSetMtime", func(ex *Exec, fr *frame, args []Value) Value {
 		st := ex.fs()
 		if n := st.nodes[ex.fsPath(args[0])]; n != nil {
